@@ -64,6 +64,8 @@ def _walk_own(node):
 
 
 def _has_return(s):
+    if isinstance(s, _NESTED):
+        return False
     return any(isinstance(n, ast.Return) for n in _walk_own(s))
 
 
@@ -412,6 +414,9 @@ class Normaliser(object):
         body = h.body
         other_mentions = set()
         caller_stores = set()
+        stores_after = set()       # caller locals (re)bound after the call statement may run again: closures must not capture them
+        in_loop = any(isinstance(l, (ast.For, ast.While)) and any(x is stmt for x in ast.walk(l)) for l in ast.walk(caller_fn))
+        at = getattr(stmt, 'lineno', 0)
 
         class Skip(ast.NodeVisitor):
             def generic_visit(self_, n):
@@ -421,6 +426,8 @@ class Normaliser(object):
                     other_mentions.add(n.id)
                     if isinstance(n.ctx, (ast.Store, ast.Del)):
                         caller_stores.add(n.id)
+                        if in_loop or getattr(n, 'lineno', 0) >= at:
+                            stores_after.add(n.id)
                 elif isinstance(n, ast.arg):
                     other_mentions.add(n.arg)
                 elif isinstance(n, ast.ExceptHandler) and n.name:
@@ -465,9 +472,9 @@ class Normaliser(object):
                 arg = binding[L]
                 captured = L in h.nested_free
                 if L not in h.stored and L not in h.nested_bound:
-                    if isinstance(arg, ast.Name) and arg.id == L and not (captured and L in caller_stores):
+                    if isinstance(arg, ast.Name) and arg.id == L and not (captured and L in stores_after):
                         continue
-                    if isinstance(arg, ast.Constant) or (isinstance(arg, ast.Name) and not captured and arg.id not in h.stored):
+                    if isinstance(arg, ast.Constant) or (isinstance(arg, ast.Name) and not (captured and arg.id in stores_after) and arg.id not in h.stored):
                         subst[L] = arg
                         continue
                 new = self._fresh(L)
